@@ -40,6 +40,7 @@ WEIRD_ASSIGN = [
     {'t': 'bool', 'v': True}, {'t': 'attr', 'v': 'inf'},
     {'t': 'mpf', 'v': [0, '65', -1]},      # mpf(50.5)
     {'t': 'mpf', 'v': [1, '3', 0]},        # mpf(-3)
+    {'t': 'int', 'v': 10 ** 400},          # cannot be converted to a digit count: must raise and change nothing
 ]
 
 class Exec(object):
